@@ -8,9 +8,15 @@ for r in runs:
     log = os.path.join(r, "log") if os.path.exists(os.path.join(r, "log")) else None
     if not log:
         continue
-    for line in open(log, errors="replace"):
-        m = re.match(r"== (C\d\d) exit=(\d+) (\d+)s :: (\S+) .*?evaluations=(\d+) distinct_nontrivial=(\d+)", line)
-        if m:
+    lines = open(log, errors="replace").read().splitlines()
+    for k, line in enumerate(lines):
+        m0 = re.match(r"== (C\d\d) exit=(\d+) (\d+)s :: (\S+)", line)
+        m1 = re.match(r"\s+evaluations (\d+) distinct_nontrivial (\d+)", lines[k + 1]) if m0 and k + 1 < len(lines) else None
+        if m0 and m1 and m0.group(2) == "0":
+            class M:
+                def __init__(s, a, b): s.a, s.b = a, b
+                def group(s, i): return s.a.group(i) if i <= 4 else s.b.group(i - 4)
+            m = M(m0, m1)
             p = m.group(1)
             ev = os.path.join(r, "verif", "evidence", p + ".json")
             fz = None
